@@ -254,12 +254,18 @@ pub(super) fn graph_check(dims: &[usize], nl: usize, tracked: &[bool], nodes: &[
             // remember the gradients of the default-seed pass, clear them, re-run with explicit ones
             let mut first: Vec<Option<Array>> = Vec::with_capacity(total);
             let mut q = 0;
-            while q < total { first.push(g.arrs[q].replace_gradient()); q += 1; }
+            while q < total {
+                // clone-like nodes share the gradient slot of their source: clear / compare through the source only
+                let shares_slot = q >= nl && (nodes[q - nl].0 == G_CLONE || nodes[q - nl].0 == G_UNTRACK);
+                first.push(if shares_slot { None } else { g.arrs[q].replace_gradient() });
+                q += 1;
+            }
             assert!(g_all_clean(&g), "C10 no residue between passes");
             g.arrs[root].backward(Some(ones));
             q = 0;
             while q < total {
-                let now = grad_of(&g.arrs[q]);
+                let shares_slot = q >= nl && (nodes[q - nl].0 == G_CLONE || nodes[q - nl].0 == G_UNTRACK);
+                let now = if shares_slot { None } else { grad_of(&g.arrs[q]) };
                 match (&first[q], &now) {
                     (None, None) => {}
                     (Some(x), Some(y)) => {
